@@ -154,6 +154,15 @@ func (k c11) Run(c *rt.Ctx) {
 		st, pred = &gen.Store{Family: gen.FBinary, Pairs: ps}, p
 		c.Rec.Inc("high_byte_literals")
 	}
+	if r.Chance(1, 25) {
+		// a pair under the empty key and a filter that no key satisfies (or only that one): what a
+		// delete turned into a direct removal removes is what the filter selects
+		ps := []refstore.Pair{{K: "", V: "e"}, {K: "a", V: "1"}, {K: "b", V: "2"}, {K: "c", V: "3"}}
+		w := []string{"key < ''", "'' > key", "key < '' | key = 'b'", "key <= ''", "'' >= key | key = 'zz'", "key in ('', 'zz')", "key between '' and ''", "key < '' | key < ''"}[r.Intn(8)]
+		c.Rec.Inc("empty_key_filters")
+		k.single(c, w, "", ps, drive.Mode{Batch: r.Bool(), Size: pickBatch(c), Cache: true, ExtraPolls: r.Intn(3)}, w)
+		return
+	}
 	lim := ""
 	if r.Chance(1, 3) {
 		s := []int{0, 0, 1, 2, 3, 5, 31, 32, 33, 64}[r.Intn(10)]
